@@ -104,6 +104,9 @@ class Ob:
             return True
         if v == "unknown":
             self.inconclusive(label)
+        elif v == "sat":
+            # a call site that has no replay for this claim: never silently dropped
+            self.inconclusive(label + " (solver counterexample, no replay available at this call site)")
         return False
 
     def is_known(self, finding_id):
